@@ -180,7 +180,7 @@ def classify(node, parents):
         return "Ordered", "unknown consumer " + p.__class__.__name__
 
 
-def scan_module(mod, tree, sites, mutdefaults, globals_mut):
+def scan_module(mod, tree, sites, mutdefaults, globals_mut, memo=None):
     parents = {}
     for n in ast.walk(tree):
         for ch in ast.iter_child_nodes(n):
@@ -264,6 +264,22 @@ def scan_module(mod, tree, sites, mutdefaults, globals_mut):
                     globals_mut.append({"module": mod, "function": f.name, "line": n.lineno, "what": "mutates " + U(dotted)})
             if name is not None and name in imported_from_cdd and name not in local and name not in mod_mutables:
                 globals_mut.append({"module": mod, "function": f.name, "line": n.lineno, "what": "mutates imported " + name})
+    # memoisation: a result kept from an earlier call (and, when mutable, changed by its users) makes the output depend on the
+    # call history.  Any reference to a memoising helper is recorded, whatever it is applied to.
+    if memo is not None:
+        MEMO = {"lru_cache", "cache", "cached_property", "memoize", "memoise", "memoized", "memoised"}
+        for n in ast.walk(tree):
+            ident = n.id if isinstance(n, ast.Name) else n.attr if isinstance(n, ast.Attribute) else None
+            par = parents.get(n)
+            applied = isinstance(par, (ast.FunctionDef, ast.AsyncFunctionDef, ast.ClassDef)) or (isinstance(par, ast.Call) and par.func is n) or \
+                (isinstance(par, ast.Call) and n in par.args)        # used as a decorator, called, or handed to another callable
+            if ident in MEMO and applied:
+                f = enclosing(n)
+                p = parents.get(n)
+                while p is not None and not isinstance(p, (ast.FunctionDef, ast.AsyncFunctionDef, ast.ClassDef, ast.Assign, ast.Module)):
+                    p = parents.get(p)
+                on = p.name if isinstance(p, (ast.FunctionDef, ast.AsyncFunctionDef, ast.ClassDef)) else (f.name if f else "<module>")
+                memo.append({"module": mod, "function": on, "line": n.lineno, "what": ident})
     for f in funcs:
         a = f.args
         for d in a.defaults + [x for x in a.kw_defaults if x is not None]:
@@ -283,11 +299,11 @@ def key(s):
 
 
 def generate():
-    sites, mutdefaults, globals_mut = [], [], []
+    sites, mutdefaults, globals_mut, memo = [], [], [], []
     for m, (path, _p) in sorted(discover().items()):
         if is_test_module(m):
             continue
-        scan_module(m, parse(path), sites, mutdefaults, globals_mut)
+        scan_module(m, parse(path), sites, mutdefaults, globals_mut, memo)
     ordered = [s for s in sites if s["class"] == "Ordered"]
     lines = ["(* GENERATED by translate/setiter.py from /repo -- do not edit. *)",
              "From Coq Require Import List String.", "Import ListNotations.", "Local Open Scope string_scope.", "",
@@ -300,9 +316,12 @@ def generate():
              ";\n  ".join(coq_string("%s|%s|%s" % (s["module"], s["function"], s["expr"])) for s in mutdefaults) + "].",
              "(* functions that write module globals *)",
              "Definition global_writers : list string := [" +
-             ";\n  ".join(coq_string("%s|%s|%s" % (s["module"], s["function"], s["what"])) for s in globals_mut) + "].", ""]
+             ";\n  ".join(coq_string("%s|%s|%s" % (s["module"], s["function"], s["what"])) for s in globals_mut) + "].",
+             "(* memoising helpers (results kept between calls): module|function|helper *)",
+             "Definition memoised : list string := [" +
+             ";\n  ".join(coq_string("%s|%s|%s" % (s["module"], s["function"], s["what"])) for s in memo) + "].", ""]
     return {"SetIterSites.v": "\n".join(lines)}, {"sites": sites, "ordered": ordered, "mutable_defaults": mutdefaults,
-                                                  "global_writers": globals_mut}
+                                                  "global_writers": globals_mut, "memoised": memo}
 
 
 if __name__ == "__main__":
@@ -311,3 +330,4 @@ if __name__ == "__main__":
         print(s["class"], s["module"], s["function"], s["line"], s["expr"], "--", s["why"])
     print("mutable defaults:", meta["mutable_defaults"])
     print("global writers:", meta["global_writers"])
+    print("memoised:", meta["memoised"])
